@@ -1523,6 +1523,8 @@ class SSHServerChannel(SSHChannel, Generic[AnyStr]):
 
         env_opt = cast(EnvMap, conn.get_key_option('environment', {}))
         self._env = dict(encode_env(env_opt))
+        self._key_env = frozenset(self._env)
+        self._started = False
 
         self._allow_pty = allow_pty
         self._line_editor = line_editor
@@ -1697,6 +1699,11 @@ class SSHServerChannel(SSHChannel, Generic[AnyStr]):
         packet.check_end()
 
         self.logger.debug1('  Env: %s=%s', key, value)
+
+        if key in self._key_env:
+            # Values set by the authorized key take precedence
+            return False
+
         self._env[key] = value
         return True
 
